@@ -766,7 +766,13 @@ pub fn run_property(p: &Property, ctx: &Ctx, only_sub: Option<&str>) -> i32 {
             r.wall_s,
             if r.violation.is_some() { " VIOLATION" } else { "" }
         );
+        let failed = r.violation.is_some();
         reports.push(r);
+        if failed {
+            // a violation is a verdict: the remaining sub-checks (some of which wait on real
+            // threads and can be very slow on a broken tree) are not needed to report it
+            break;
+        }
     }
     let mut exit = 0;
     let mut violations = 0;
